@@ -325,6 +325,24 @@ def run_object(case, ctx, qr, rng, work, out):
                         continue
                     raise
                 compare(ctx, ref, got, det, mech=mech)
+                if mech is None and "eig" not in lc:
+                    # second generation: what was loaded is saved (in the other context) and loaded again
+                    fn2 = os.path.join(work, "x2.qrp")
+                    try:
+                        with ctx.lib("saving the loaded object in %s / loading in %s [%s]" % (lc, sc, kind)):
+                            with enter(qr, lc, bop):
+                                o2.save(fn2)
+                            with enter(qr, sc if "eig" not in sc else "none", bop):
+                                o3 = load_parcel(fn2)
+                        if type(o3) is type(o):
+                            with ctx.lib("reading the second-generation object [%s]" % kind):
+                                got3 = obs(qr, o3, kind)
+                            compare(ctx, ref, got3, dict(det, generation=2))
+                        else:
+                            ctx.require("object-roundtrip", False, dict(det, generation=2, what="type of the loaded object", got=type(o3).__name__))
+                    except Exception as e:
+                        if type(e).__name__ != "LibRaised":
+                            raise
                 # the original must be unharmed as well
                 compare(ctx, ref, obs(qr, o, kind) if kind != "Aggregate-unbuilt" else ref, dict(det, what2="original after save/load"), clause="original-unchanged")
                 ctx.sub((kind, sc, lc), nontrivial=(sc != "none" or lc != "none"))
